@@ -237,6 +237,9 @@ func main() {
 		{"Rl", "Rn", "W", "T", "Rz", "W", "W", "T", "Rz", "W"}, // long timer replaced by an expired one
 		{"Rs", "W", "T", "Rs", "W", "Rl", "W", "T"},            // read, then fired and NOT read, then re-armed for long: the stale tick must be drained
 		{"Rz", "W", "T", "Rn", "W", "Rl", "W", "T", "S"},
+		{"Rz", "W", "T", "Rs", "W", "Rl", "W", "T"},           // first armed with a deadline already passed, received; then fired and NOT read, then re-armed for long
+		{"Rn", "W", "T", "Rs", "W", "Rs", "W", "T", "W", "T"}, // same start, short re-arm: exactly one tick
+		{"Rz", "W", "T", "Rz", "W", "T", "Rs", "W", "Rl", "W", "T"},
 		{"Rs", "W", "T", "Rs", "W", "Rs", "W", "T", "W", "T"}, // same with a short re-arm: exactly one tick
 	}
 	for _, c := range corpus {
